@@ -1,0 +1,9 @@
+//go:build !verif
+
+package pongo2
+
+func verifPoint(string, interface {
+	TryLock() bool
+	Unlock()
+}) {
+}
